@@ -617,10 +617,10 @@ theorem sliceIdx_all (ev : Nat → List Row) (es : List Equation) :
     simp only [sliceIdx, localIdx, ih, fullRows_cons, List.length_append]
     exact range_shift_append _ _ _
 
-theorem sel_bounds (sys : Sys) (ev : Nat → List Row) (req : Request) (hinv : sys.Inv)
-    (hc : Consistent sys ev) (e : Equation) (he : e ∈ sys.eqs) (idx : List Nat)
+theorem sel_sorted (sys : Sys) (req : Request) (hinv : sys.Inv)
+    (e : Equation) (he : e ∈ sys.eqs) (idx : List Nat)
     (h : req.sel e = some (some idx)) :
-    idx.Pairwise (· < ·) ∧ ∀ i ∈ idx, i < (ev e.name).length := by
+    idx.Pairwise (· < ·) ∧ ∀ i ∈ idx, i < e.total := by
   have hsub : ∃ gs, idx = localRows e.image gs := by
     cases req with
     | all => simp [Request.sel] at h
@@ -650,10 +650,17 @@ theorem sel_bounds (sys : Sys) (ev : Nat → List Row) (req : Request) (hinv : s
   have hs := localRows_sublist e.image gs
   have hi : e.image.flatMap (·.2) = List.range e.total := hinv.2 e he
   rw [hi] at hs
-  refine ⟨List.Pairwise.sublist hs List.pairwise_lt_range, ?_⟩
-  intro i hi'
-  rw [hc e he]
-  exact List.mem_range.mp (hs.subset hi')
+  exact ⟨List.Pairwise.sublist hs List.pairwise_lt_range, fun i hi' => List.mem_range.mp (hs.subset hi')⟩
+
+theorem sel_bounds (sys : Sys) (ev : Nat → List Row) (req : Request) (hinv : sys.Inv)
+    (hc : Covers sys ev) (e : Equation) (he : e ∈ sys.eqs) (idx : List Nat)
+    (h : req.sel e = some (some idx)) :
+    idx.Pairwise (· < ·) ∧ ∀ i ∈ idx, i < (ev e.name).length := by
+  obtain ⟨h1, h2⟩ := sel_sorted sys req hinv e he idx h
+  exact ⟨h1, fun i hi => Nat.lt_of_lt_of_le (h2 i hi) (hc e he)⟩
+
+theorem consistent_covers (sys : Sys) (ev : Nat → List Row) (h : Consistent sys ev) : Covers sys ev :=
+  fun e he => Nat.le_of_eq (h e he).symm
 
 /-! ### order of a request -/
 
@@ -926,18 +933,31 @@ theorem assemble_res_eq (sys : Sys) (ev : Nat → List Row) (req : Request)
     assemble sys ev false req vars = (sys, .ok ⟨[], [], vals.map (fun v => - v)⟩) := by
   simp [assemble, hp, hr]
 
-/-- Core of the slice theorem: the Jacobian loop on the parsed request. -/
+/-- Core of the slice theorem: the Jacobian loop on the parsed request, provided no requested
+    local row lies beyond the evaluated operator. -/
 theorem jac_core (sys : Sys) (ev : Nat → List Row) (req : Request) (hinv : sys.Inv)
-    (hc : Consistent sys ev) (blocks : Blocks) (hp : parseEquations sys req = .ok blocks) :
+    (hno : ¬ OutOfRange sys ev req) (blocks : Blocks) (hp : parseEquations sys req = .ok blocks) :
     ∃ rows ix, jacLoop ev blocks 0 = .ok (rows, ix) ∧
       rows.map some = (rowIdx sys ev req).map (fun k => (fullRows sys.eqs ev)[k]?) := by
   rw [parse_blocks sys hinv req blocks hp]
   have hb : ∀ e ∈ sys.eqs, ∀ r, req.sel e = some r →
       ∀ i ∈ localIdx (ev e.name).length r, i < (ev e.name).length := by
     intro e he r hr
-    exact (localIdx_ok _ r (fun idx hidx => sel_bounds sys ev req hinv hc e he idx (by rw [hr, hidx]))).2
+    cases r with
+    | none => intro i hi; exact List.mem_range.mp hi
+    | some idx =>
+      intro i hi
+      apply Nat.lt_of_not_le
+      intro hle
+      exact hno ⟨e, he, idx, hr, i, hi, hle⟩
   obtain ⟨rows, ix, h1, h2⟩ := jacLoop_slice ev req.sel sys.eqs [] 0 hb
   exact ⟨rows, ix, h1, by simpa [rowIdx] using h2⟩
+
+theorem covers_not_outOfRange (sys : Sys) (ev : Nat → List Row) (req : Request) (hinv : sys.Inv)
+    (hc : Covers sys ev) : ¬ OutOfRange sys ev req := by
+  rintro ⟨e, he, idx, hsel, i, hi, hle⟩
+  have := (sel_bounds sys ev req hinv hc e he idx hsel).2 i hi
+  omega
 
 theorem map_some_comp (f : α → β) (rows : List α) (idx : List Nat) (xs : List α)
     (h : rows.map some = idx.map (fun k => xs[k]?)) :
@@ -1128,5 +1148,526 @@ theorem split_sound (eqs : List Equation) (hn : (eqs.map (·.name)).Nodup) :
         omega
       · rw [hother e' he'']
         exact ih2 e' he''
+
+/-! ### the IndexError path -/
+
+theorem getIdx_none (xs : List α) (idx : List Nat) (h : getIdx xs idx = none) :
+    ∃ i ∈ idx, xs.length ≤ i := by
+  induction idx with
+  | nil => simp [getIdx] at h
+  | cons i is ih =>
+    simp only [getIdx] at h
+    cases hx : xs[i]? with
+    | none => exact ⟨i, List.mem_cons_self, List.getElem?_eq_none_iff.mp hx⟩
+    | some x =>
+      cases hr : getIdx xs is with
+      | none =>
+        obtain ⟨j, hj, hl⟩ := ih hr
+        exact ⟨j, List.mem_cons_of_mem _ hj, hl⟩
+      | some r => simp [hx, hr] at h
+
+theorem getIdx_some_bounds (xs : List α) (idx : List Nat) (r : List α) (h : getIdx xs idx = some r) :
+    ∀ i ∈ idx, i < xs.length := by
+  induction idx generalizing r with
+  | nil => intro i hi; cases hi
+  | cons j js ih =>
+    simp only [getIdx] at h
+    cases hx : xs[j]? with
+    | none => simp [hx] at h
+    | some x =>
+      cases hr : getIdx xs js with
+      | none => simp [hx, hr] at h
+      | some r' =>
+        intro i hi
+        rcases List.mem_cons.mp hi with rfl | hi
+        · apply Nat.lt_of_not_le
+          intro hcon
+          have := List.getElem?_eq_none_iff.mpr hcon
+          rw [this] at hx
+          cases hx
+        · exact ih r' hr i hi
+
+theorem takeRows_error (xs : List α) (r : Option (List Nat)) (e : Err) (h : takeRows xs r = .error e) :
+    e = .index ∧ ∃ idx, r = some idx ∧ ∃ i ∈ idx, xs.length ≤ i := by
+  cases r with
+  | none => cases h
+  | some idx =>
+    simp only [takeRows] at h
+    cases hr : getIdx xs idx with
+    | none =>
+      rw [hr] at h
+      cases h
+      exact ⟨rfl, idx, rfl, getIdx_none xs idx hr⟩
+    | some r' => rw [hr] at h; cases h
+
+theorem takeRows_ok_bounds (xs : List α) (idx : List Nat) (rows : List α)
+    (h : takeRows xs (some idx) = .ok rows) : ∀ i ∈ idx, i < xs.length := by
+  simp only [takeRows] at h
+  cases hr : getIdx xs idx with
+  | none => rw [hr] at h; cases h
+  | some r' => exact getIdx_some_bounds xs idx r' hr
+
+theorem jacLoop_error (ev : Nat → List Row) (blocks : Blocks) :
+    ∀ s e, jacLoop ev blocks s = .error e →
+      e = .index ∧ ∃ name idx, (name, some idx) ∈ blocks ∧ ∃ i ∈ idx, (ev name).length ≤ i := by
+  induction blocks with
+  | nil => intro s e h; cases h
+  | cons b rest ih =>
+    obtain ⟨name, r⟩ := b
+    intro s e h
+    rw [jacLoop_cons] at h
+    cases h0 : takeRows (ev name) r with
+    | error e0 =>
+      rw [h0] at h
+      cases h
+      obtain ⟨he, idx, rfl, hbad⟩ := takeRows_error _ _ _ h0
+      exact ⟨he, name, idx, List.mem_cons_self, hbad⟩
+    | ok part0 =>
+      rw [h0] at h
+      simp only at h
+      cases h1 : jacLoop ev rest (s + part0.length) with
+      | error e1 =>
+        rw [h1] at h
+        cases h
+        obtain ⟨he, n, idx, hm, hbad⟩ := ih _ _ h1
+        exact ⟨he, n, idx, List.mem_cons_of_mem _ hm, hbad⟩
+      | ok q => rw [h1] at h; cases h
+
+theorem jacLoop_ok_bounds (ev : Nat → List Row) (blocks : Blocks) :
+    ∀ s q, jacLoop ev blocks s = .ok q →
+      ∀ name idx, (name, some idx) ∈ blocks → ∀ i ∈ idx, i < (ev name).length := by
+  induction blocks with
+  | nil => intro s q _ name idx hm; cases hm
+  | cons b rest ih =>
+    obtain ⟨name0, r⟩ := b
+    intro s q h name idx hm
+    rw [jacLoop_cons] at h
+    cases h0 : takeRows (ev name0) r with
+    | error e0 => rw [h0] at h; cases h
+    | ok part0 =>
+      rw [h0] at h
+      simp only at h
+      cases h1 : jacLoop ev rest (s + part0.length) with
+      | error e1 => rw [h1] at h; cases h
+      | ok q' =>
+        rcases List.mem_cons.mp hm with heq | hm'
+        · cases heq
+          exact takeRows_ok_bounds _ _ _ h0
+        · exact ih _ _ h1 name idx hm'
+
+theorem mem_blocksOf (sel : Equation → Option (Option (List Nat))) (es : List Equation)
+    (name : Nat) (r : Option (List Nat)) :
+    (name, r) ∈ blocksOf sel es ↔ ∃ e ∈ es, sel e = some r ∧ e.name = name := by
+  unfold blocksOf
+  rw [List.mem_filterMap]
+  constructor
+  · rintro ⟨e, he, h⟩
+    cases hs : sel e with
+    | none => rw [hs] at h; cases h
+    | some r' =>
+      rw [hs] at h
+      simp only [Option.map_some, Option.some.injEq, Prod.mk.injEq] at h
+      exact ⟨e, he, by rw [hs, h.2], h.1⟩
+  · rintro ⟨e, he, hs, hn⟩
+    exact ⟨e, he, by simp [hs, hn]⟩
+
+theorem idxPrefix_of_ok (ev : Nat → List Row) (blocks : Blocks) :
+    ∀ s rows ix, jacLoop ev blocks s = .ok (rows, ix) → idxPrefix ev blocks s = ix := by
+  induction blocks with
+  | nil => intro s rows ix h; simp only [jacLoop] at h; cases h; rfl
+  | cons b rest ih =>
+    obtain ⟨name, r⟩ := b
+    intro s rows ix h
+    rw [jacLoop_cons] at h
+    cases h0 : takeRows (ev name) r with
+    | error e0 => rw [h0] at h; cases h
+    | ok part0 =>
+      rw [h0] at h
+      simp only at h
+      cases h1 : jacLoop ev rest (s + part0.length) with
+      | error e1 => rw [h1] at h; cases h
+      | ok q =>
+        obtain ⟨rs, ix'⟩ := q
+        rw [h1] at h
+        simp only at h
+        cases h
+        simp only [idxPrefix, h0, indStart_eq, ih _ _ _ h1]
+
+/-! ### remove_equation -/
+
+theorem findEq_filter (eqs : List Equation) (name n : Nat) (h : n ≠ name) :
+    findEq (eqs.filter (fun e => e.name ≠ name)) n = findEq eqs n := by
+  induction eqs with
+  | nil => rfl
+  | cons a l ih =>
+    by_cases ha : a.name = name
+    · have h1 : decide (a.name ≠ name) = false := decide_eq_false (fun hh => hh ha)
+      have h2 : a.name ≠ n := fun hh => h (by rw [← hh, ha])
+      simp only [List.filter_cons, h1, Bool.false_eq_true, ↓reduceIte, findEq, if_neg h2]
+      exact ih
+    · have h1 : decide (a.name ≠ name) = true := decide_eq_true ha
+      simp only [List.filter_cons, h1, ↓reduceIte, findEq, ih]
+
+theorem hasEq_filter (sys sys' : Sys) (name n : Nat) (h : n ≠ name)
+    (hs : sys'.eqs = sys.eqs.filter (fun e => e.name ≠ name)) : sys'.hasEq n = sys.hasEq n := by
+  rw [Bool.eq_iff_iff, hasEq_iff, hasEq_iff, hs]
+  simp only [List.mem_map, List.mem_filter, decide_eq_true_eq]
+  constructor
+  · rintro ⟨e, ⟨he, _⟩, hn⟩; exact ⟨e, he, hn⟩
+  · rintro ⟨e, he, hn⟩; exact ⟨e, ⟨he, by rw [hn]; exact h⟩, hn⟩
+
+/-- an item that does not name `name` -/
+def Item.avoids (name : Nat) : Item → Prop
+  | .key k => k.name? ≠ some name
+  | .dict es => ∀ p ∈ es, p.1.name? ≠ some name
+
+theorem parseEntry_filter (sys sys' : Sys) (name : Nat)
+    (hs : sys'.eqs = sys.eqs.filter (fun e => e.name ≠ name)) (k : Key) (gs : List GridId)
+    (hk : k.name? ≠ some name) : parseEntry sys' k gs = parseEntry sys k gs := by
+  unfold parseEntry
+  cases hn : k.name? with
+  | none => rfl
+  | some n =>
+    have : n ≠ name := fun hh => hk (by rw [hn, hh])
+    simp only [hs, findEq_filter sys.eqs name n this]
+
+theorem parseEntries_filter (sys sys' : Sys) (name : Nat)
+    (hs : sys'.eqs = sys.eqs.filter (fun e => e.name ≠ name)) (es : List (Key × List GridId))
+    (hk : ∀ p ∈ es, p.1.name? ≠ some name) : parseEntries sys' es = parseEntries sys es := by
+  induction es with
+  | nil => rfl
+  | cons p es ih =>
+    obtain ⟨k, gs⟩ := p
+    simp only [parseEntries]
+    rw [parseEntry_filter sys sys' name hs k gs (hk (k, gs) List.mem_cons_self),
+      ih (fun q hq => hk q (List.mem_cons_of_mem _ hq))]
+
+theorem parseSingle_filter (sys sys' : Sys) (name : Nat)
+    (hs : sys'.eqs = sys.eqs.filter (fun e => e.name ≠ name)) (it : Item)
+    (hk : it.avoids name) : parseSingle sys' it = parseSingle sys it := by
+  cases it with
+  | key k =>
+    simp only [parseSingle]
+    cases hn : k.name? with
+    | none => rfl
+    | some n =>
+      have : n ≠ name := fun hh => hk (by rw [hn, hh])
+      simp only [hasEq_filter sys sys' name n this hs]
+  | dict es =>
+    simp only [parseSingle]
+    exact parseEntries_filter sys sys' name hs es hk
+
+theorem parseItems_filter (sys sys' : Sys) (name : Nat)
+    (hs : sys'.eqs = sys.eqs.filter (fun e => e.name ≠ name)) (items : List Item) :
+    ∀ d, (∀ it ∈ items, it.avoids name) → parseItems sys' d items = parseItems sys d items := by
+  induction items with
+  | nil => intro d _; rfl
+  | cons it rest ih =>
+    intro d hk
+    simp only [parseItems]
+    rw [parseSingle_filter sys sys' name hs it (hk it List.mem_cons_self)]
+    cases parseSingle sys it with
+    | error e => rfl
+    | ok b => exact ih _ (fun i hi => hk i (List.mem_cons_of_mem _ hi))
+
+theorem avoids_of_not_mem (name : Nat) (it : Item) (h : name ∉ it.entries.map (·.1)) :
+    it.avoids name := by
+  cases it with
+  | key k =>
+    simp only [Item.avoids]
+    intro hk
+    apply h
+    simp [Item.entries, hk]
+  | dict es =>
+    simp only [Item.avoids]
+    intro p hp hk
+    apply h
+    simp only [Item.entries, List.mem_map, List.mem_filterMap]
+    exact ⟨(name, some p.2), ⟨p, hp, by simp [hk]⟩, rfl⟩
+
+theorem lastFor_none_of_not_mem (name : Nat) (l : List (Nat × β)) (h : name ∉ l.map (·.1)) :
+    lastFor name l = none := by
+  induction l with
+  | nil => rfl
+  | cons p l ih =>
+    simp only [List.map_cons, List.mem_cons, not_or] at h
+    simp only [lastFor, ih h.2]
+    rw [if_neg (fun hh => h.1 hh.symm)]
+
+theorem orderBlocks_filter (eqs : List Equation) (name : Nat) (d : Blocks)
+    (h : lookup name d = none) :
+    orderBlocks (eqs.filter (fun e => e.name ≠ name)) d = orderBlocks eqs d := by
+  unfold orderBlocks
+  induction eqs with
+  | nil => rfl
+  | cons a l ih =>
+    by_cases ha : a.name = name
+    · have h1 : decide (a.name ≠ name) = false := decide_eq_false (fun hh => hh ha)
+      rw [List.filter_cons, h1]
+      simp only [Bool.false_eq_true, ↓reduceIte, List.filterMap_cons, ha, h, Option.map_none]
+      exact ih
+    · have h1 : decide (a.name ≠ name) = true := decide_eq_true ha
+      simp only [List.filter_cons, h1, ↓reduceIte, List.filterMap_cons, ih]
+
+theorem parse_list_filter (sys sys' : Sys) (name : Nat)
+    (hs : sys'.eqs = sys.eqs.filter (fun e => e.name ≠ name)) (items : List Item)
+    (hn : name ∉ (items.flatMap Item.entries).map (·.1)) :
+    parseEquations sys' (.list items) = parseEquations sys (.list items) := by
+  have hav : ∀ it ∈ items, it.avoids name := by
+    intro it hit
+    apply avoids_of_not_mem
+    intro hmem
+    apply hn
+    obtain ⟨p, hp, hpn⟩ := List.mem_map.mp hmem
+    exact List.mem_map.mpr ⟨p, List.mem_flatMap.mpr ⟨it, hit, hp⟩, hpn⟩
+  simp only [parseEquations]
+  rw [parseItems_filter sys sys' name hs items [] hav]
+  cases hd : parseItems sys [] items with
+  | error e => rfl
+  | ok d =>
+    simp only
+    have hl : lookup name d = none := by
+      rw [parseItems_ok sys items [] d hd, lookup_reverse_append]
+      have : lastFor name (resolve sys (items.flatMap Item.entries)) = none := by
+        apply lastFor_none_of_not_mem
+        simpa [resolve, List.map_map, Function.comp_def] using hn
+      rw [this]
+      rfl
+    rw [hs, orderBlocks_filter sys.eqs name d hl]
+
+theorem parse_dict_filter (sys sys' : Sys) (name : Nat)
+    (hs : sys'.eqs = sys.eqs.filter (fun e => e.name ≠ name)) (es : List (Key × List GridId))
+    (hn : name ∉ (dictEntries es).map (·.1)) :
+    parseEquations sys' (.dict es) = parseEquations sys (.dict es) := by
+  have := parse_list_filter sys sys' name hs (es.map (fun p => Item.dict [p]))
+    (by rw [entries_of_dict_items]; exact hn)
+  simpa [parseEquations] using this
+
+theorem removeEquation_eqs (sys sys' : Sys) (name : Nat) (h : removeEquation sys name = .ok sys') :
+    sys' = { sys with eqs := sys.eqs.filter (fun e => e.name ≠ name) } ∧ sys.hasEq name = true := by
+  unfold removeEquation at h
+  split at h
+  · rename_i hh
+    cases h
+    exact ⟨rfl, hh⟩
+  · cases h
+
+theorem hasEq_removed (sys : Sys) (name : Nat) :
+    Sys.hasEq { sys with eqs := sys.eqs.filter (fun e => e.name ≠ name) } name = false := by
+  rw [Bool.eq_false_iff]
+  intro h
+  rw [hasEq_iff] at h
+  obtain ⟨e, he, hn⟩ := List.mem_map.mp h
+  have := (List.mem_filter.mp he).2
+  simp [hn] at this
+
+theorem columnsOf_congr (sys sys' : Sys) (vars : Option (List VarItem))
+    (hg : sys'.grids = sys.grids) (hv : sys'.vars = sys.vars) :
+    columnsOf sys' vars = columnsOf sys vars := by
+    have hd : dofOrder sys' = dofOrder sys := by simp [dofOrder, hg, hv]
+    have hdo : ∀ ids, dofsOf sys' ids = dofsOf sys ids := by
+      intro ids
+      induction ids with
+      | nil => rfl
+      | cons i is ih => simp only [dofsOf, hd, ih]
+    have hpv : ∀ items, parseVarItems sys' items = parseVarItems sys items := by
+      intro items
+      induction items with
+      | nil => rfl
+      | cons it rest ih => simp only [parseVarItems, ih, hv]
+    cases vars with
+    | none => simp only [columnsOf, hdo, hv]
+    | some items => simp only [columnsOf, hdo, hpv]
+
+/-- `assemble` looks at the system only through the parsed request, the grids and the variables. -/
+theorem assemble_congr (sys sys' : Sys) (ev : Nat → List Row) (jac : Bool) (req : Request)
+    (vars : Option (List VarItem)) (hp : parseEquations sys' req = parseEquations sys req)
+    (hg : sys'.grids = sys.grids) (hv : sys'.vars = sys.vars) :
+    (assemble sys' ev jac req vars).2 = (assemble sys ev jac req vars).2 ∧
+      ((∃ b, parseEquations sys req = .ok b) → jac = true →
+        (assemble sys' ev jac req vars).1.lastIdx = (assemble sys ev jac req vars).1.lastIdx) := by
+  have hc := columnsOf_congr sys sys' vars hg hv
+  unfold assemble
+  rw [hp, hc]
+  cases parseEquations sys req with
+  | error e => exact ⟨rfl, fun h => by obtain ⟨b, hb⟩ := h; cases hb⟩
+  | ok blocks =>
+    cases jac with
+    | false =>
+      simp only [Bool.false_eq_true, if_false]
+      cases resLoop ev blocks with
+      | error e => exact ⟨rfl, fun _ h => by cases h⟩
+      | ok v => exact ⟨rfl, fun _ h => by cases h⟩
+    | true =>
+      simp only [if_true]
+      cases jacLoop ev blocks 0 with
+      | error e => exact ⟨rfl, fun _ _ => rfl⟩
+      | ok q =>
+        obtain ⟨rows, ix⟩ := q
+        simp only
+        cases columnsOf sys vars with
+        | error e => exact ⟨rfl, fun _ _ => rfl⟩
+        | ok cols => exact ⟨rfl, fun _ _ => rfl⟩
+
+/-! ### after a removal, the full system is the old system restricted to the other equations -/
+
+theorem lastFor_const (name : Nat) (v : β) (l : List Nat) :
+    lastFor name (l.map (fun n => (n, v))) = if name ∈ l then some v else none := by
+  induction l with
+  | nil => rfl
+  | cons a l ih =>
+    simp only [List.map_cons, lastFor, ih, List.mem_cons]
+    by_cases h1 : name ∈ l
+    · simp [h1]
+    · by_cases h2 : a = name
+      · simp [h1, h2]
+      · have : ¬ name = a := fun hh => h2 hh.symm
+        simp [h1, h2, this]
+
+theorem filterMap_keep (eqs : List Equation) (name : Nat) (f : Equation → Option (Nat × Option (List Nat)))
+    (hk : ∀ e ∈ eqs, e.name ≠ name → f e = some (e.name, none))
+    (hd : ∀ e ∈ eqs, e.name = name → f e = none) :
+    eqs.filterMap f = (eqs.filter (fun e => e.name ≠ name)).map (fun e => (e.name, none)) := by
+  induction eqs with
+  | nil => rfl
+  | cons a l ih =>
+    have ih' := ih (fun e he => hk e (List.mem_cons_of_mem _ he)) (fun e he => hd e (List.mem_cons_of_mem _ he))
+    by_cases ha : a.name = name
+    · have h1 : decide (a.name ≠ name) = false := decide_eq_false (fun hh => hh ha)
+      rw [List.filter_cons, h1]
+      simp only [Bool.false_eq_true, ↓reduceIte, List.filterMap_cons, hd a List.mem_cons_self ha]
+      exact ih'
+    · have h1 : decide (a.name ≠ name) = true := decide_eq_true ha
+      rw [List.filter_cons, h1]
+      simp only [↓reduceIte, List.filterMap_cons, hk a List.mem_cons_self ha, List.map_cons, ih']
+
+theorem parse_rest (sys : Sys) (hinv : sys.Inv) (name : Nat) :
+    parseEquations sys (.list ((sys.eqs.filter (fun e => e.name ≠ name)).map (fun e => Item.key (.str e.name)))) =
+      .ok ((sys.eqs.filter (fun e => e.name ≠ name)).map (fun e => (e.name, none))) := by
+  let items := (sys.eqs.filter (fun e => e.name ≠ name)).map (fun e => Item.key (.str e.name))
+  have hok : ∀ it ∈ items, ∃ b, parseSingle sys it = .ok b := by
+    intro it hit
+    obtain ⟨e, he, rfl⟩ := List.mem_map.mp hit
+    have : sys.hasEq e.name = true := (hasEq_iff sys _).mpr (List.mem_map.mpr ⟨e, (List.mem_filter.mp he).1, rfl⟩)
+    exact ⟨[(e.name, none)], by simp [parseSingle, Key.name?, this]⟩
+  obtain ⟨d, hd⟩ := (parseItems_isOk sys items []).mpr hok
+  have hp : parseEquations sys (.list items) = .ok (orderBlocks sys.eqs d) := by
+    simp [parseEquations, hd]
+  show parseEquations sys (.list items) = _
+  rw [hp, parse_blocks sys hinv _ _ hp]
+  congr 1
+  have hent : (Request.list items).entries =
+      ((sys.eqs.filter (fun e => e.name ≠ name)).map (·.name)).map (fun n => (n, none)) := by
+    have gen : ∀ l : List Equation, (l.map (fun e => Item.key (.str e.name))).flatMap Item.entries =
+        (l.map (·.name)).map (fun n => (n, none)) := by
+      intro l
+      induction l with
+      | nil => rfl
+      | cons a l ih =>
+        simp only [List.map_cons, List.flatMap_cons, Item.entries, Key.name?, ih]
+        rfl
+    exact gen _
+  unfold blocksOf
+  apply filterMap_keep
+  · intro e he hne
+    simp only [Request.sel, hent, lastFor_const]
+    have : e.name ∈ (sys.eqs.filter (fun e => e.name ≠ name)).map (·.name) :=
+      List.mem_map.mpr ⟨e, List.mem_filter.mpr ⟨he, by simpa using hne⟩, rfl⟩
+    rw [if_pos this]
+    rfl
+  · intro e he heq
+    simp only [Request.sel, hent, lastFor_const]
+    have : e.name ∉ (sys.eqs.filter (fun e => e.name ≠ name)).map (·.name) := by
+      intro hmem
+      obtain ⟨e', he', hn'⟩ := List.mem_map.mp hmem
+      have := (List.mem_filter.mp he').2
+      simp [hn', heq] at this
+    rw [if_neg this]
+    rfl
+
+/-! ### update_equation -/
+
+theorem updateEquation_inv (sys : Sys) (name : Nat) (grids : Option (List GridId))
+    (per : Option PerEntity) (hinv : sys.Inv) : (updateEquation sys name grids per).1.Inv := by
+  unfold updateEquation
+  simp only
+  split
+  · exact hinv
+  · split
+    · exact hinv
+    · split
+      · exact hinv
+      · rename_i s1 hr
+        have h1 := removeEquation_inv sys s1 name hinv hr
+        split
+        · exact h1
+        · rename_i s2 hs
+          exact setEquation_inv s1 s2 name _ _ h1 hs
+
+/-! ### the equation operations do not touch grids and variables -/
+
+theorem setEquation_gv (sys sys' : Sys) (name : Nat) (grids : List GridId) (m : PerEntity)
+    (h : setEquation sys name grids m = .ok sys') : sys'.grids = sys.grids ∧ sys'.vars = sys.vars := by
+  unfold setEquation at h
+  split at h
+  · cases h
+  · split at h
+    · cases h; exact ⟨rfl, rfl⟩
+    · simp only at h
+      split at h
+      · cases h; exact ⟨rfl, rfl⟩
+      · cases h
+
+theorem removeEquation_gv (sys sys' : Sys) (name : Nat) (h : removeEquation sys name = .ok sys') :
+    sys'.grids = sys.grids ∧ sys'.vars = sys.vars := by
+  obtain ⟨rfl, _⟩ := removeEquation_eqs sys sys' name h
+  exact ⟨rfl, rfl⟩
+
+theorem updateEquation_gv (sys : Sys) (name : Nat) (grids : Option (List GridId)) (per : Option PerEntity) :
+    (updateEquation sys name grids per).1.grids = sys.grids ∧
+      (updateEquation sys name grids per).1.vars = sys.vars := by
+  unfold updateEquation
+  simp only
+  split
+  · exact ⟨rfl, rfl⟩
+  · split
+    · exact ⟨rfl, rfl⟩
+    · split
+      · exact ⟨rfl, rfl⟩
+      · rename_i s1 hr
+        have h1 := removeEquation_gv sys s1 name hr
+        split
+        · exact h1
+        · rename_i s2 hs
+          have h2 := setEquation_gv s1 s2 name _ _ hs
+          exact ⟨h2.1.trans h1.1, h2.2.trans h1.2⟩
+
+theorem applyOp_gv (sys : Sys) (op : Op) :
+    (applyOp sys op).grids = sys.grids ∧ (applyOp sys op).vars = sys.vars := by
+  cases op with
+  | set n gs m =>
+    simp only [applyOp]
+    cases hs : setEquation sys n gs m with
+    | error e => exact ⟨rfl, rfl⟩
+    | ok s => exact setEquation_gv sys s n gs m hs
+  | remove n =>
+    simp only [applyOp]
+    cases hs : removeEquation sys n with
+    | error e => exact ⟨rfl, rfl⟩
+    | ok s => exact removeEquation_gv sys s n hs
+  | update n gs m => exact updateEquation_gv sys n gs m
+  | assemble ev jac req vs =>
+    have := assemble_eqs sys ev jac req vs
+    exact ⟨this.2.1, this.2.2⟩
+
+theorem run_gv (ops : List Op) : ∀ sys : Sys,
+    (run sys ops).grids = sys.grids ∧ (run sys ops).vars = sys.vars := by
+  induction ops with
+  | nil => intro sys; exact ⟨rfl, rfl⟩
+  | cons op ops ih =>
+    intro sys
+    have h1 := applyOp_gv sys op
+    have h2 := ih (applyOp sys op)
+    exact ⟨h2.1.trans h1.1, h2.2.trans h1.2⟩
 
 end PorepyVerif.C06
